@@ -855,6 +855,14 @@ Proof.
   intros Hm Hb Hts. rewrite (quote_go_qtext isprint isprint_ascii _ Hts). apply encode_lf_raw; assumption.
 Qed.
 
+(* in logfmt mode the encoder always produces a record *)
+Lemma encode_total c msg attrs : e_mode c = ShLogfmt -> exists out, encode isprint g c msg attrs = Some out.
+Proof.
+  intros Hm. destruct (blank_print c msg) eqn:Hb.
+  - eexists. apply encode_blank; assumption.
+  - eexists. apply encode_lf_raw; assumption.
+Qed.
+
 Lemma seg_qpair k s : key_ok k -> seg (x20 :: k ++ x3d :: quote_go isprint s) [(k, quote_go isprint s)].
 Proof. intros Hk. apply seg_blank. apply (seg_pair isprint isprint_ascii k (FQuoted s) Hk I). Qed.
 
